@@ -163,6 +163,9 @@ type Exec struct {
 	// Failures recorded by oracles during the execution.
 	Failures []string
 	Leftover int // goroutines that could not be killed at the end
+	// Frozen: scheduling decisions take the default without being recorded as
+	// choice points (deterministic set-up phases of a scenario).
+	Frozen bool
 	// Outcome is the scenario's classification of what happened (for counting
 	// distinct behaviours); Sample is an optional human-readable rendering.
 	Outcome string
@@ -479,7 +482,7 @@ func (x *Exec) take(cp ChoicePoint) int {
 // Choose resolves an environment/data choice with n options from the choice
 // list (default 0). Alternatives cost one deviation each unless free.
 func (x *Exec) Choose(n int, free bool, label string) int {
-	if n <= 1 {
+	if n <= 1 || x.Frozen {
 		return 0
 	}
 	cp := ChoicePoint{N: n, Free: free, FP: fnv(fnv(14695981039346656037, "data:"+label), strconv.Itoa(n))}
@@ -490,7 +493,7 @@ func (x *Exec) Choose(n int, free bool, label string) int {
 }
 
 func (x *Exec) chooseThread(m []*Thread) *Thread {
-	if len(m) == 1 {
+	if len(m) == 1 || x.Frozen {
 		return m[0]
 	}
 	h := uint64(14695981039346656037)
@@ -678,4 +681,16 @@ func RunOnce(t *testing.T, prefix []int, prefixFP []uint64, opt Options, body fu
 	cur.Store(nil)
 	return Result{Trace: x.Trace, Steps: x.Steps, Failures: x.Failures, Diverged: x.Diverged, CapHit: x.CapHit, StepTrace: x.StepTrace,
 		Leftover: x.Leftover, Threads: len(x.threads), Ticks: x.ticks.Load()}
+}
+
+// WaitFor parks the calling thread until cond holds (evaluated by the
+// controller while every thread is stopped). Harness-side blocking primitive.
+func WaitFor(obj uintptr, label string, cond func() bool) {
+	t := Self()
+	if t == nil || t.killed.Load() {
+		return
+	}
+	t.pend = pending{obj: obj, op: OpChan, label: label, en: cond}
+	t.state.Store(tsParked)
+	t.park()
 }
